@@ -20,6 +20,8 @@ pub mod memory;
 pub mod mvcc;
 pub mod types;
 pub mod utils;
+#[cfg(grafeo_verif)]
+pub mod verif;
 
 // The types you'll use most often
 pub use mvcc::{Version, VersionChain, VersionInfo};
